@@ -232,5 +232,6 @@ theorem entries_step [Inhabited V] (ord : Nat → Nat) {sp : Spec V} (hnd : Keys
       rw [List.eq_nil_of_length_eq_zero h]; rfl
   | move => rfl
   | merge ins rem => exact absurd hop (by simp [Op.KeyLevel])
+  | selfMerge => rfl
 
 end Qentem.HashTable
